@@ -240,12 +240,31 @@ func (g *Gen) RTValue(t *Ty, gt *GT) *Val {
 	return g.Value(t, gt)
 }
 
+// PtrKeyed: does the type tree contain a map whose key column has a POINTER as its default Go type (varint ->
+// *big.Int, decimal -> *inf.Dec)?  goType(map<varint, X>) is map[*big.Int]X: Go compares such keys by pointer
+// identity, which neither the model (structural equality of keys) nor the canonical printing of maps can express;
+// the generators that bind / decode through goType(...) leave these trees out.
+func PtrKeyed(t *Ty) bool {
+	if t.Name == "map" && GoTypeOf(t.Elems[0]).Name == "ptr" {
+		return true
+	}
+	for _, e := range t.Elems {
+		if PtrKeyed(e) {
+			return true
+		}
+	}
+	return false
+}
+
 // RTCase: a protocol version, a type tree, a round-trip Go type and a value of it.
 func (g *Gen) RTCase(depth int) (proto byte, t *Ty, gt *GT, v *Val) {
 	proto = byte(1 + g.R.Intn(5))
 	t = g.Ty(depth)
-	for tries := 0; t.IsScalar() && tries < 50; tries++ { // composite types are the point of this generator
+	for tries := 0; (t.IsScalar() || PtrKeyed(t)) && tries < 50; tries++ { // composite types are the point of this generator
 		t = g.Ty(depth)
+	}
+	if PtrKeyed(t) {
+		t = &Ty{Name: "list", Elems: []*Ty{{Name: "text"}}}
 	}
 	gt = g.RTType(t)
 	v = g.RTValue(t, gt)
